@@ -46,6 +46,7 @@ func c16(c *Ctx) {
 	r.Rule("R16.2", "C12's propagation rule on the store side: for each call site in the builder packages whose callees reach LinkSystem.Store and that returns an error, the error reaches the enclosing function's error result on every path (quick builder: its error-less API panics, listed)")
 	r.Rule("R16.3", "every return of a builder function with (Link, …, error) results has a nil link, or a nil error, or is dominated by err == nil for the error it returns, or forwards the results of a repository callee that itself satisfies the rule (forwarding LinkSystem.Store raw is a violation: it returns (link, commitErr))")
 	r.Rule("R16.5", "builder calls share no mutable state: no package-level variable of the builder packages is written outside package initialisation (a link remembered from an earlier build was committed to that build's store, not this one)")
+	r.Rule("R16.6", "blocks reach the caller's storage only through (*LinkSystem).Store: a storage write opener (or committer) is called in the builder packages only inside a function that is itself a write opener (the byte-counting wrapper that forwards to the original); a raw write/commit elsewhere bypasses the encode → write → commit order by which a parent is committed after its children")
 	r.Rule("R16.4", "no LinkSystem.ComputeLink, no go statement, no deferred call that reaches a store in the builder packages; (*LinkSystem).Store calls the storage committer after the encoder (dependency assertion)")
 
 	bp := core.BuilderPkgs
@@ -180,6 +181,7 @@ func c16(c *Ctx) {
 	r.Floor("R16.1", n161, 12)
 	c.checkNoBuilderGlobals("R16.5")
 
+	c.checkNoRawWrites()
 	// ---- R16.4
 	nbad := 0
 	nfun := 0
@@ -242,6 +244,40 @@ func (c *Ctx) errLeadsToPanic(fn *ssa.Function, call ssa.CallInstruction) bool {
 	e, has := core.ErrResultOfCall(call)
 	if !has || e == nil {
 		return false
+	}
+	// the error handed to a repository helper that panics on it (`return b.must(build(…))`)
+	for _, ref := range *e.Referrers() {
+		hc, isCall := ref.(*ssa.Call)
+		if !isCall {
+			continue
+		}
+		h := hc.Call.StaticCallee()
+		if h == nil || len(h.Blocks) == 0 {
+			continue
+		}
+		if _, isRepo := c.P.PkgOf(h); !isRepo {
+			continue
+		}
+		for i, a := range hc.Call.Args {
+			if a != e || i >= len(h.Params) || !c.paramLeadsToPanic(h, h.Params[i]) {
+				continue
+			}
+			all := true
+			core.EnumPathsFrom(call.Block(), 2, 20000, func(path []*ssa.BasicBlock) {
+				found := false
+				for _, b := range path {
+					if b == hc.Block() {
+						found = true
+					}
+				}
+				if !found {
+					all = false
+				}
+			})
+			if all {
+				return true
+			}
+		}
 	}
 	ok := true
 	tested := false
@@ -560,7 +596,112 @@ func (c *Ctx) checkNoBuilderGlobals(rule string) {
 			}
 		}
 	}
+	seenIns := map[ssa.Instruction]bool{}
+	for _, m := range c.G.GlobalMutations(core.BuilderPkgs) {
+		if seenIns[m.Ins] {
+			continue
+		}
+		seenIns[m.Ins] = true
+		if m.What == "store" || m.What == "map update" {
+			continue // reported by the direct scan above
+		}
+		n++
+		r.Violate(rule, fmt.Sprintf("%s/global-state:%s", core.FuncName(m.Fn), m.Global.Name()), c.P.Pos(m.Ins.Pos()), "package-level variable "+m.Global.Name()+" is modified during a build ("+m.What+"): results of one build leak into the next, whose store never received that block")
+	}
 	if n == 0 {
 		r.OK(rule, "data/builder/*/no-global-state", "-", fmt.Sprintf("%d builder functions: no package-level variable is written outside init", nfun))
+	}
+}
+
+// paramLeadsToPanic: in h, every path on which error parameter p is non-nil (or untested) ends in panic.
+func (c *Ctx) paramLeadsToPanic(h *ssa.Function, p *ssa.Parameter) bool {
+	ok, tested := true, false
+	core.EnumPaths(h, 2, 20000, func(path []*ssa.BasicBlock) {
+		state := "untested"
+		for i := 0; i+1 < len(path); i++ {
+			if cond, taken, isBr := core.BranchTaken(path[i], path[i+1]); isBr {
+				if x, trueMeansNil, isNil := core.NilCmp(cond); isNil && x == ssa.Value(p) {
+					tested = true
+					if taken == trueMeansNil {
+						state = "nil"
+					} else {
+						state = "nonnil"
+					}
+				}
+			}
+		}
+		last := path[len(path)-1]
+		_, isPanic := last.Instrs[len(last.Instrs)-1].(*ssa.Panic)
+		if state != "nil" && !isPanic {
+			ok = false
+		}
+	})
+	return ok && tested
+}
+
+// checkNoRawWrites implements R16.6.
+func (c *Ctx) checkNoRawWrites() {
+	r := c.R
+	isOpenerShaped := func(fn *ssa.Function) bool {
+		sig := fn.Signature
+		if sig.Params().Len() != 1 || sig.Results().Len() != 3 {
+			return false
+		}
+		return strings.HasSuffix(types.TypeString(sig.Params().At(0).Type(), nil), "linking.LinkContext") &&
+			strings.HasSuffix(types.TypeString(sig.Results().At(1).Type(), nil), "linking.BlockWriteCommitter")
+	}
+	rawKind := func(cc *ssa.CallCommon) string {
+		if cc.IsInvoke() || cc.StaticCallee() != nil {
+			return ""
+		}
+		if _, isB := cc.Value.(*ssa.Builtin); isB {
+			return ""
+		}
+		ts := types.TypeString(cc.Value.Type(), nil)
+		switch {
+		case strings.HasSuffix(ts, "linking.BlockWriteOpener"):
+			return "storage write opener"
+		case strings.HasSuffix(ts, "linking.BlockWriteCommitter"):
+			return "block committer"
+		}
+		return ""
+	}
+	n, nbad := 0, 0
+	ctl := false
+	for _, fn := range c.G.Funcs() {
+		rel, ok := c.P.PkgOf(fn)
+		isCtl := rel == core.Rel(core.ControlPkg)
+		if !ok || !(core.BuilderPkgs[rel] || isCtl) {
+			continue
+		}
+		ord := 0
+		for _, ci := range core.CallsIn(fn) {
+			kind := rawKind(ci.Common())
+			if kind == "" {
+				continue
+			}
+			if isCtl {
+				ctl = true
+				continue
+			}
+			n++
+			ord++
+			key := fmt.Sprintf("%s/raw-write#%d", core.FuncName(fn), ord)
+			if isOpenerShaped(fn) {
+				r.OK("R16.6", key, c.P.Pos(ci.Pos()), "the "+kind+" is called inside a write opener that forwards to it (byte-counting wrapper)")
+				continue
+			}
+			// a committer wrapper: a closure returned as the committer of an opener-shaped parent
+			if fn.Parent() != nil && isOpenerShaped(fn.Parent()) {
+				r.OK("R16.6", key, c.P.Pos(ci.Pos()), "the "+kind+" is called inside the committer returned by a forwarding write opener")
+				continue
+			}
+			nbad++
+			r.Violate("R16.6", key, c.P.Pos(ci.Pos()), "a "+kind+" is called directly in "+core.FuncName(fn)+": the block is written to the caller's storage outside (*LinkSystem).Store, so the order in which blocks become visible is no longer children-before-parent")
+		}
+	}
+	r.Control("R16.6/CtlC16RawWrite", ctl)
+	if nbad == 0 {
+		r.OK("R16.6", "data/builder/*/no-raw-write", "-", fmt.Sprintf("%d direct opener/committer call(s) in the builder packages, none outside a forwarding write opener", n))
 	}
 }
